@@ -14,6 +14,8 @@ package theine
 // Nothing is sampled; cases are numbered and sharded by case number.
 
 import (
+	"context"
+	"errors"
 	"fmt"
 	"runtime"
 	"strings"
@@ -149,6 +151,9 @@ func c18run[K comparable](d *c18drv, t vc18.Type[K]) {
 					if t.Keys[xi].K != t.Keys[yi].K && t.Keys[xi].K == t.Keys[xi].K && t.Keys[yi].K == t.Keys[yi].K && d.take(t.Name, cfg, "fault", xi, yi) {
 						c18fault(d, &t, cfg, xi, yi)
 					}
+					if t.Keys[xi].K == t.Keys[xi].K && t.Keys[yi].K == t.Keys[yi].K && d.take(t.Name, cfg, "hybrid-pair", xi, yi) {
+						c18hybridPair(d, &t, cfg, xi, yi)
+					}
 				}
 			}
 		}
@@ -163,6 +168,9 @@ func (d *c18drv) violate(clause, step string, cost int, typ, class string, cfg c
 	}
 	if strings.HasPrefix(step, "fault") {
 		phase = "fault"
+	}
+	if strings.HasPrefix(step, "hybrid") {
+		phase = "hybrid-pair"
 	}
 	_ = repr
 	sig := fmt.Sprintf("class=%s hash=%s dk=%v stack=%s phase=%s", class, cfg.Hash, cfg.DK, cfg.Stack, phase)
@@ -429,6 +437,88 @@ func c18fault[K comparable](d *c18drv, t *vc18.Type[K], cfg c18cfg, xi, yi int) 
 		return
 	}
 	d.res.Outcome(fmt.Sprintf("%s|%s|fault|%s", t.Class, cfg, strings.Join(log, ";")))
+}
+
+// c18hybridPair: the pair protocol (Set x; Get y; Set y; Get x) on the two-tier kinds, built the two ways the exported
+// builder offers (Builder.Hybrid and Builder.Hybrid().Loading()): the option wiring of those paths - the StringKey
+// function above all - is part of what "equal keys address the same entry" promises there.
+func c18hybridPair[K comparable](d *c18drv, t *vc18.Type[K], cfg c18cfg, xi, yi int) {
+	x, y := &t.Keys[xi], &t.Keys[yi]
+	eq := x.K == y.K
+	for _, kind := range []string{"hybrid", "hybrid-loading"} {
+		rp := c18replay{Type: t.Name, Cfg: cfg, Phase: "hybrid-pair", X: xi, Y: yi, XLbl: x.Label(), YLbl: y.Label()}
+		cost := (x.Rank+y.Rank)*100 + xi + yi + 70
+		d.res.States++
+		d.res.Executions++
+		var log []string
+		fail := func(clause, what string) {
+			detail := fmt.Sprintf("%s cache built through the exported builder, x = %s\ny = %s\nx==y: %v\nops: %s\nVIOLATED: %s", kind, x.Label(), y.Label(), eq, strings.Join(log, "; "), what)
+			d.violate(clause, "hybrid:"+kind, cost, t.Name, t.Class, cfg, "", rp, detail)
+		}
+		sec := &c18Sec[K]{m: map[K]int{}}
+		b := NewBuilder[K, int](1000)
+		switch cfg.Hash {
+		case "collide":
+			b.StringKey(func(K) string { return "c18-every-key-the-same" })
+		case "strkey":
+			b.StringKey(t.StrKey)
+		}
+		var set func(k K, v int) bool
+		var get func(k K) (int, bool)
+		var closeFn func()
+		if kind == "hybrid" {
+			c, err := b.Hybrid(sec).Workers(1).Build()
+			if err != nil {
+				panic(err)
+			}
+			set = func(k K, v int) bool { return c.Set(k, v, 1) }
+			get = func(k K) (int, bool) { v, ok, _ := c.Get(k); return v, ok }
+			closeFn = c.Close
+		} else {
+			c, err := b.Hybrid(sec).Workers(1).Loading(func(ctx context.Context, k K) (Loaded[int], error) {
+				return Loaded[int]{}, errors.New("c18: not loadable")
+			}).Build()
+			if err != nil {
+				panic(err)
+			}
+			set = func(k K, v int) bool { return c.Set(k, v, 1) }
+			get = func(k K) (int, bool) { v, err := c.Get(context.Background(), k); return v, err == nil }
+			closeFn = c.Close
+		}
+		step := func(name string, k *vc18.Key[K], want int, hit bool) bool {
+			vc18.Dirty(0)
+			d.res.Transitions++
+			v, ok := get(k.K)
+			log = append(log, fmt.Sprintf("Get(%s)=%d,%v", name, v, ok))
+			if ok != hit || (hit && v != want) {
+				clause := "equal-miss"
+				if !eq {
+					clause = "distinct-alias"
+				}
+				fail(clause, fmt.Sprintf("Get(%s) gave (%d,%v), expected (%d,%v)", name, v, ok, want, hit))
+				return false
+			}
+			return true
+		}
+		func() {
+			defer closeFn()
+			vc18.Dirty(0)
+			log = append(log, fmt.Sprintf("Set(x,%d)=%v", c18v1, set(x.K, c18v1)))
+			if !step("y", y, c18v1, eq) {
+				return
+			}
+			vc18.Dirty(0)
+			log = append(log, fmt.Sprintf("Set(y,%d)=%v", c18v2, set(y.K, c18v2)))
+			want := c18v1
+			if eq {
+				want = c18v2
+			}
+			if !step("x", x, want, true) {
+				return
+			}
+			d.res.Outcome(fmt.Sprintf("%s|%s|hybrid-pair|%s|%v", t.Class, cfg, kind, eq))
+		}()
+	}
 }
 
 // c18crowd: capacity 3, all catalogue keys competing (in the collide configurations: one shard, one
